@@ -46,7 +46,7 @@ def conform_reducer(chk, items, name="reducer"):
     return ok, drift
 
 
-def observe(chk, obs, items, kinds, extra=None, name=None, keep=None):
+def observe(chk, obs, items, kinds, extra=None, name=None, keep=None, tolerate=None):
     import copy
     """Evaluate specs/obs/Obs_<obs>.tla on the recorded logs restricted to the record kinds it reads."""
     traces = []
@@ -56,7 +56,10 @@ def observe(chk, obs, items, kinds, extra=None, name=None, keep=None):
         if extra:
             d.update(extra(prog, tr))
         traces.append(d)
-    verdicts, res = tracecheck.observe(chk, "obs/Obs_%s.tla" % obs, "obs/Obs_%s.cfg" % obs, {"traces": traces},
+    batch = {"traces": traces}
+    if tolerate:
+        batch["tolerate"] = sorted(tolerate)
+    verdicts, res = tracecheck.observe(chk, "obs/Obs_%s.tla" % obs, "obs/Obs_%s.cfg" % obs, batch,
                                        name=name or ("obs_" + obs), workers=6)
     return verdicts
 
@@ -161,6 +164,17 @@ def mc_plans(chk, pid):
     programs where its mechanism engages.  Programs are the same dicts the real engine runs."""
     q = chk.quick
     plans = {
+        "C05": [("attempts", sc.pipeline(retry_max=2, delay=2, fail_until=99), ["Inv_C06"], [], {}),
+                ("stop_delay", sc.pipeline(retry_max=None, stop_delay=3, delay=2, fail_until=99), [], [], {})],
+        "C06": [("chain_asis", sc.pipeline(retry_max=4, wait=["chain", [5, 1]], fail_until=99), ["Inv_C06"], [],
+                 {"expect_violation": "Inv_C06"}),
+                ("chain_design", sc.pipeline(retry_max=4, wait=["chain", [5, 1]], fail_until=99), ["Inv_C06"], [],
+                 {"dev": {"wait_index_one_based": False}}),
+                ("incr_design", sc.pipeline(retry_max=4, wait=["incr", 6, -2, 100], fail_until=99), ["Inv_C06"], [],
+                 {"dev": {"wait_index_one_based": False}})],
+        "C08": [("scoped", sc.handlers("scoped", 2, reenter=True), ["Inv_C08"], [], {}),
+                ("both", sc.handlers("both", 1), ["Inv_C08"], [], {}),
+                ("wild_fails", sc.handlers("wildcard", 1, handler_fails=True), ["Inv_C08"], [], {})],
         "C09": [("collect", sc.collector(2, ("A", "A"), 3), ["Inv_C09"], [], {"expect_violation": "Inv_C09"}),
                 ("collect_nw1", sc.collector(1, ("A", "A"), 4) if q else sc.collector(1, ("A", "A", "B"), 6), ["Inv_C09"], [], {})],
         "C10": [("waiter_asis", sc.waiter2(7), ["Inv_C10", "Inv_C10_Timeout", "Inv_C10_WaiterEvent"], [],
@@ -206,15 +220,37 @@ def standard_run(chk, pid, families, kinds, key_of=None, nontrivial=None, extra=
         f_conf.result()
     seen = set()
     clauses = {}
-    for i, (label, prog, ext, tr, sched) in enumerate(items, 1):
-        clause, l = verdicts[i][0], verdicts[i][1]
-        if clause != "ok":
-            clauses[clause] = clauses.get(clause, 0) + 1
-            key = key_of(clause, label, prog, tr, l) if key_of else "obs:" + clause
-            chk.violation(key, (describe(clause, label) if describe else
-                                "%s: clause '%s' fails in scenario %s" % (pid, clause, label)),
-                          {"scenario": label, "program": prog, "schedule": sched_str(sched), "clause": clause,
-                           "at_record": l})
+    known_keys = {k["key"] for k in chk.known}
+
+    def report(sub_items, vd):
+        again, tol = [], set()
+        for i, (label, prog, ext, tr, sched) in enumerate(sub_items, 1):
+            clause, l = vd[i][0], vd[i][1]
+            if clause != "ok":
+                clauses[clause] = clauses.get(clause, 0) + 1
+                key = key_of(clause, label, prog, tr, l) if key_of else "obs:" + clause
+                chk.violation(key, (describe(clause, label) if describe else
+                                    "%s: clause '%s' fails in scenario %s" % (pid, clause, label)),
+                              {"scenario": label, "program": prog, "schedule": sched_str(sched), "clause": clause,
+                               "at_record": l})
+                if key in known_keys:
+                    again.append((label, prog, ext, tr, sched))
+                    tol.add(clause)
+        return again, tol
+
+    again, tol = report(items, verdicts)
+    tolerated = set()
+    rounds = 0
+    while again and rounds < 4:
+        # known finding seen: judge the same traces again with that clause switched off, so that the rest of the
+        # property stays checked in its presence
+        tolerated |= tol
+        vd2 = observe(chk, pid, again, kinds, extra, "obs_%s_pass%d" % (pid, rounds + 2), keep, tolerated)
+        again, tol = report(again, vd2)
+        rounds += 1
+    if tolerated:
+        chk.cov["clauses_rechecked_without"] = sorted(tolerated)
+    for (label, prog, ext, tr, sched) in items:
         if nontrivial is None or nontrivial(tr):
             seen.add(label + repr(sched))
     chk.add(evaluations=len(items), distinct_nontrivial=len(seen))
